@@ -151,4 +151,35 @@ def sameStrictSide (s t : Seg) : Prop :=
   (0 < cross s.d (psub t.a s.a) ∧ 0 < cross s.d (psub t.b s.a)) ∨
   (cross s.d (psub t.a s.a) < 0 ∧ cross s.d (psub t.b s.a) < 0)
 
+/-- Bool form of `boxesOverlap` -/
+def boxesOverlapB (s t : Seg) : Bool :=
+  decide (rmin s.a.1 s.b.1 ≤ rmax t.a.1 t.b.1) && decide (rmin t.a.1 t.b.1 ≤ rmax s.a.1 s.b.1) &&
+  decide (rmin s.a.2 s.b.2 ≤ rmax t.a.2 t.b.2) && decide (rmin t.a.2 t.b.2 ≤ rmax s.a.2 s.b.2)
+
+/-- candidate partners `(i, j)` of segment `i` among the later segments (numbered from `j`) -/
+def pairsWith (i : Nat) (s : Seg) : Nat → List Seg → List (Nat × Nat)
+  | _, [] => []
+  | j, t :: rest =>
+    if boxesOverlapB s t then (i, j) :: pairsWith i s (j + 1) rest else pairsWith i s (j + 1) rest
+
+def pairsFrom : Nat → List Seg → List (Nat × Nat)
+  | _, [] => []
+  | i, s :: rest => pairsWith i s (i + 1) rest ++ pairsFrom (i + 1) rest
+
+/-- specification of `_identify_overlapping_rectangles` on the boxes of the segments: all pairs
+    `i < j` whose closed bounding boxes overlap, sorted by `i` (then `j`) -/
+def boxPairs (segs : List Seg) : List (Nat × Nat) := pairsFrom 0 segs
+
+/-- what the early-return branch of the code returns when no intersection point was found:
+    the input edges unchanged, `argsort = arange` -/
+def trivFrom : Nat → List Seg → List OutEdge
+  | _, [] => []
+  | i, s :: rest => ⟨s.a, s.b, i, s.tags⟩ :: trivFrom (i + 1) rest
+
+/-- no two different input segments (by position) have an intersection point -/
+def NoIsect (segs : List Seg) : Prop := segs.Pairwise (fun s t => inter s t = [] ∧ inter t s = [])
+
+instance (segs : List Seg) : Decidable (NoIsect segs) :=
+  inferInstanceAs (Decidable (segs.Pairwise (fun s t => inter s t = [] ∧ inter t s = [])))
+
 end PorepyVerif.C29
